@@ -519,7 +519,11 @@ Section Serde.
     | S f =>
         if mem_id i seen then true else
         let seen' := i :: seen in
-        let sup_props := fun (ps : list prop) =>
+        (* deny_unknown_fields together with a flattened member (only reachable for struct
+           VARIANTS of an enum) is not modelled: serde then rejects every unknown entry instead of
+           handing it to the map (observed) *)
+        let sup_props := fun (ps : list prop) (deny : bool) =>
+          negb (deny && negb (Nat.eqb (length (flat_props ps)) 0)) &&
           forallb (fun p => sup_go f seen' (p_ty p) &&
                             match p_state p with
                             | POptional => match default_val 8 (p_ty p) with Some _ => true | None => false end
@@ -547,14 +551,14 @@ Section Serde.
                 | CString _ _ _ => match get_det T inner with Some DString => true | _ => false end
                 | _ => true
                 end
-            | DStruct _ _ ps _ => sup_props ps
-            | DEnum _ _ tag vs _ _ =>
+            | DStruct _ _ ps deny => sup_props ps deny
+            | DEnum _ _ tag vs deny _ =>
                 forallb (fun v => match v_det v with
                                   | VSimple => true
                                   | VItem t => sup_go f seen' t
                                   | VTuple ts => forallb (sup_go f seen') ts &&
                                                  match tag with TagInternal _ => false | _ => true end
-                                  | VStruct ps => sup_props ps
+                                  | VStruct ps => sup_props ps deny
                                   end) vs
             | DReference _ => false
             end
